@@ -54,10 +54,12 @@ def records(ctx, rulesets, per_quick, kinds=None, procs=14, focus=()):
         items = slice_of(ctx, items, per_quick)
     ctx.extra["universe_slice"] = len(items)
     from vlib.par import robust_map
-    res = robust_map(_rec, items, procs, 300)
+    quick = ctx.tier == "quick"
+    ctx.rng.shuffle(items)               # so that a deadline cuts a random part of the slice, not always its tail
+    res = robust_map(_rec, items, procs, 150 if quick else 300, deadline=(360 if ctx.quick() else 900) if quick else None)
     for it, r in zip(items, res):
-        if isinstance(r, dict):          # worker died or timed out on this item
-            ctx.bump("universe_" + ("timeout" if r.get("timeout") else "worker_died"))
+        if isinstance(r, dict):          # worker died, timed out or the run's time budget was used up before this item started
+            ctx.bump("universe_" + ("timeout" if r.get("timeout") else ("not_started_time_budget" if r.get("skipped") else "worker_died")))
             if r.get("worker_died"):
                 yield it, corpus.name_of(it), "", {"raised": "the interpreter died while fixing this input"}
             continue
@@ -95,7 +97,13 @@ def run_universe(ctx, prop, rulesets, per_quick, what, kinds=None, focus=()):
             a = rec["tree_toks"] if prop == "C12" else rec["orig_toks"]
             b = rec["relex_toks"]
             ca, ra = enc_toks(a); cb, rb = enc_toks(b)
-            lines.append("edit.spec %s %s %s %s" % (ca, ra, cb, rb)); meta.append((case, name, rs, rec, v))
+            if prop == "C15":
+                # Unicode case mapping is supplied (Python's str.lower()); the relation itself is evaluated by Lean
+                fa = enc_nnl([ord(ch) for ch in r.lower()] for (r, _c, _t) in a); fb = enc_nnl([ord(ch) for ch in r.lower()] for (r, _c, _t) in b)
+                lines.append("edit.spec15 %s %s %s %s %s %s" % (ca, ra, fa, cb, rb, fb))
+            else:
+                lines.append("edit.spec %s %s %s %s" % (ca, ra, cb, rb))
+            meta.append((case, name, rs, rec, v))
         elif prop in v and v[prop] is False:
             detail = {"C13": {"reparse_errors": rec.get("reparse_errs"), "relex_errors": rec.get("relex_errs"), "fixed": rec["fixed"][:600]},
                       "C10": {"source_tags": rec.get("src_tags"), "fixed_tags": rec.get("fixed_tags")},
@@ -104,7 +112,7 @@ def run_universe(ctx, prop, rulesets, per_quick, what, kinds=None, focus=()):
     outs = ctx.driver.run(lines) if lines else []
     idx = {"C12": 0, "C14": 1, "C15": 2}
     for (case, name, rs, rec, v), out in zip(meta, outs):
-        ok = out.split(" ")[idx[prop]] == "1"
+        ok = (out.strip() == "1") if prop == "C15" else (out.split(" ")[idx[prop]] == "1")
         if prop == "C12":
             ok = ok and "".join(r for r, _, _ in rec["tree_toks"]) == rec["fixed"]
         if ok != bool(v.get(prop)):
